@@ -75,11 +75,12 @@ package evmlane
 // requires: the stored fee-market params are valid (x/feemarket SetParams: base fee present), as for the fee checkers.
 //@ func (ed ELExecWithoutErrorDecorator) AnteHandle{SIG}
 //@   requires !fmBaseFeeNil[layer(ctx)]
+// (the x/evm keeper is wired: its precompile keeper has a store key and a codec — precondition of Keeper.NewEVM)
+//@   requires ed.ek.cpcKeeper.storeKey != nil && ed.ek.cpcKeeper.cdc != nil
 {REQTX}
 //@   modifies everything
-// own panics (trial path only): bytes do not decode / signature invalid (the explicit panic(err); both excluded by 03), chain id unset,
-// msg.From not bech32 or the sender's account missing while the "nonce increased" flag is set (excluded by 03 / 07 / 11 / 12)
-{PAN(f' || ({S} && (ctx.IsCheckTx() || ctx.IsReCheckTx() || simulate) && (!txDecodable({B}) || !decSigOk({B}) || evmChainId[layer(ctx)] == 0 || (trFlagNonce[layer(ctx)] && (!bech32Valid(ethMsgOf(payload(tx)).From) || !acctExists[layer(ctx)][{FROM}]))))')}
+// (no C20 clause: Keeper.NewEVM — verified for C17 — is specified `panics any`; the trial path's other panic sites are the explicit
+// panic(err) after AsMessage and nil accounts, all excluded by 03 / 07 / 11 / 12)
 //@   ensures[C07.cosmos_passes,C08.cosmos_passes] !{S} ==> ({NEXTC()})
 //@   ensures[C07.deliver_passes,C08.deliver_passes] (!ctx.IsCheckTx() && !ctx.IsReCheckTx() && !simulate) ==> ({NEXTC()})
 //@   ensures[C08.trial_next_or_reject] (({NEXTC(None)} && hcCtx[{K}] == ctx) || ({REJ}))
